@@ -71,7 +71,10 @@ impl HName for NoHashHasher {
 
 macro_rules! impl_dens {
     ($ty:ident, $label:expr) => {
-        impl<F: FBits, H: HName> Dens for $ty<F, u64, H> {
+        impl<F: FBits, H: HName> Dens for $ty<F, u64, H>
+        where
+            rand::distr::StandardUniform: rand::distr::Distribution<F>,
+        {
             fn new(m: usize) -> Self {
                 $ty::<F, u64, H>::new(m, BuildHasherDefault::<H>::default())
             }
